@@ -177,7 +177,11 @@ var tmplUnbounded = []string{
 // expand.
 const fzValues = `
 fzTpl: "{{ .Release.Name }}-{{ tpl \"{{ .Chart.Name }}\" . }}"
-fzTplSelf: "{{ tpl .Values.fzTplSelf . }}"
+`
+
+// fzValuesUnbounded is added only to the rare inputs that probe unbounded recursion (otherwise
+// `tpl (toYaml .Values) .` would find it and every such batch would end early).
+const fzValuesUnbounded = `fzTplSelf: "{{ tpl .Values.fzTplSelf . }}"
 `
 
 func deepParens(n int) string {
